@@ -180,6 +180,15 @@ func scnSelftest(g *Gen, budget int, arg string) {
 			}
 		}
 	}
+	// not every string is ASCII: characters beyond Latin-1, Latin-1 letters (two bytes each), bytes that are no UTF-8 at
+	// all, a multi-byte character cut by the decoder's ten-character chunks, and the same behind a valid prefix
+	for _, s := range []string{"€", "é", "ÿ", "\xff", "\xff\xfe", "\xc3", "\x80", "123456789é", "1234567890é", "12345678€", "1€", "€1", "zzzz\xffzzzz",
+		"0x€", "0xé", "0x\xff", "0x12€", "\u0100", "\u00ff", "\U0001F600", "A\u0301"} {
+		g.emit(Op{Kind: "cli-parse", KV: newKV().set("s", hs(s))})
+	}
+	for i := 0; i < 40; i++ {
+		g.emit(Op{Kind: "cli-parse", KV: newKV().set("s", hx(g.randBytes(1+g.pick(50))))})
+	}
 	for i := 0; i < budget/4; i++ {
 		var s string
 		switch g.pick(4) {
